@@ -77,13 +77,99 @@ func (x *c14Ctr) String() string {
 
 type c14Cfg struct {
 	Desc    string
-	Enabled bool     // oracle's view of "CFS quota enabled"
-	Ratio   *big.Rat // oracle's view of the configured normalization ratio; nil = none configured
-	apply   func(p *plugin)
+	Enabled bool // oracle's view of "CFS quota enabled" after the update sequence
+	// oracle's view of the ratio stored in the rule after the update sequence. More than one candidate only where
+	// the update logic is ambiguous (an update exactly at the ratioDiffEpsilon boundary, decided in float64 by the code).
+	// nil entry = never configured; -1 = "no ratio" as reported for a node without the annotation.
+	Cands []*big.Rat
+	// what happened during the sequence (class counters)
+	RemovedAfterSet, LoweredToLE1, SubEpsilon, EpsilonBoundary, IllegalKept, RaisedAbove1, Updates int
+	apply                                                                                          func(p *plugin)
 }
 
-func (g *c14Cfg) scaling() bool {
-	return g.Enabled && g.Ratio != nil && g.Ratio.Cmp(big.NewRat(1, 1)) > 0
+func c14Above1(r *big.Rat) bool { return r != nil && r.Cmp(big.NewRat(1, 1)) > 0 }
+
+// scalingAll / scalingAny: every / some candidate stored ratio is above 1 (and CFS quota is enabled)
+func (g *c14Cfg) scalingAll() bool {
+	for _, r := range g.Cands {
+		if !c14Above1(r) {
+			return false
+		}
+	}
+	return g.Enabled
+}
+func (g *c14Cfg) scalingAny() bool {
+	for _, r := range g.Cands {
+		if c14Above1(r) {
+			return g.Enabled
+		}
+	}
+	return false
+}
+
+func c14RatStr(r *big.Rat) string {
+	if r == nil {
+		return "unset"
+	}
+	return r.FloatString(6)
+}
+
+// c14RatioUpdate is the reference model of Rule.UpdateCPUNormalizationRatio: the first update is always stored; a later one
+// is stored iff it differs from the stored ratio by at least ratioDiffEpsilon = 0.01 (documented hysteresis: a closer update
+// deliberately keeps the stored ratio). The code decides |stored-new| >= 0.01 in float64, so within 1e-9 of the boundary both
+// outcomes are accepted.
+func (g *c14Cfg) ratioUpdate(r *big.Rat) {
+	eps := big.NewRat(1, 100)
+	fuzz := big.NewRat(1, 1000000000)
+	seen := map[string]bool{}
+	var out []*big.Rat
+	add := func(x *big.Rat) {
+		if k := c14RatStr(x) + "|" + fmt.Sprint(x); !seen[k] {
+			seen[k] = true
+			out = append(out, x)
+		}
+	}
+	kept, taken, boundary := false, false, false
+	anyAbove := false
+	for _, s := range g.Cands {
+		anyAbove = anyAbove || c14Above1(s)
+		if s == nil {
+			add(r)
+			taken = true
+			continue
+		}
+		d := new(big.Rat).Sub(s, r)
+		d.Abs(d)
+		d.Sub(d, eps)
+		switch {
+		case d.Cmp(fuzz) > 0:
+			add(r)
+			taken = true
+		case d.Cmp(new(big.Rat).Neg(fuzz)) < 0:
+			add(s)
+			kept = true
+		default:
+			add(s)
+			add(r)
+			boundary = true
+		}
+	}
+	if boundary {
+		g.EpsilonBoundary++
+	} else if kept && !taken {
+		g.SubEpsilon++
+	} else if taken && !kept {
+		if anyAbove && r.Sign() < 0 {
+			g.RemovedAfterSet++
+		}
+		if anyAbove && r.Sign() > 0 && !c14Above1(r) {
+			g.LoweredToLE1++
+		}
+		if !anyAbove && c14Above1(r) {
+			g.RaisedAbove1++
+		}
+	}
+	g.Cands = out
 }
 
 type c14Out struct {
@@ -349,83 +435,110 @@ func (p *c14Pod) String() string {
 	return fmt.Sprintf("pod{marking=%s labels=%v shape=%s %s; annotation=%s}", p.Marking, p.Labels, p.Shape, strings.Join(parts, ", "), p.fullAnnos[c14AnnoSpec])
 }
 
+// c14GenCfg draws a sequence of 0-4 rule updates, mostly through the entry points koordlet uses (parseRuleForNodeMeta with a
+// node object, parseRuleForNodeSLO with the merged NodeSLO), and tracks the configuration that is effective afterwards.
 func c14GenCfg(t *rapid.T) *c14Cfg {
-	g := &c14Cfg{Enabled: true}
+	g := &c14Cfg{Enabled: true, Cands: []*big.Rat{nil}}
 	var steps []func(p *plugin)
-	// --- CFS quota enabled / disabled
-	switch rapid.IntRange(0, 3).Draw(t, "cfsMode") {
-	case 0:
-		g.Desc = "cfs=unset(default enabled)"
-	case 1:
-		en := rapid.IntRange(0, 2).Draw(t, "cfsEnabled") > 0
-		g.Enabled = en
-		g.Desc = fmt.Sprintf("cfs=direct(%v)", en)
-		steps = append(steps, func(p *plugin) { p.rule.UpdateCFSQuotaEnabled(en) })
-	default:
-		// the way koordlet does it: from the merged NodeSLO. CFS quota of batch pods is switched off iff the
-		// BE CPU suppress strategy is enabled with policy "cfsQuota".
-		spec := &slov1alpha1.NodeSLOSpec{}
-		g.Desc = "cfs=nodeSLO(no threshold strategy)"
-		if rapid.IntRange(0, 3).Draw(t, "hasStrategy") > 0 {
-			en := rapid.Bool().Draw(t, "suppressEnable")
-			pol := rapid.SampledFrom([]string{"cfsQuota", "cfsQuota", "cpuset", ""}).Draw(t, "suppressPolicy")
-			spec.ResourceUsedThresholdWithBE = &slov1alpha1.ResourceThresholdStrategy{Enable: &en, CPUSuppressPolicy: slov1alpha1.CPUSuppressPolicy(pol)}
-			g.Enabled = !(en && pol == "cfsQuota")
-			g.Desc = fmt.Sprintf("cfs=nodeSLO(suppress enable=%v policy=%q)", en, pol)
-		}
-		steps = append(steps, func(p *plugin) {
-			if _, err := p.parseRuleForNodeSLO(spec); err != nil {
-				panic(fmt.Sprintf("parseRuleForNodeSLO: %v", err))
+	var descs []string
+	n := rapid.SampledFrom([]int{0, 1, 1, 2, 2, 2, 3, 3, 3, 4, 4}).Draw(t, "ruleUpdates")
+	g.Updates = n
+	lastTT := int64(0) // last valid annotated ratio, in ten-thousandths
+	for i := 0; i < n; i++ {
+		switch k := rapid.IntRange(0, 9).Draw(t, "updateKind"); {
+		case k == 0:
+			// --- CFS quota switch set directly (what parseRuleForNodeSLO ends up calling)
+			en := rapid.IntRange(0, 2).Draw(t, "cfsEnabled") > 0
+			g.Enabled = en
+			descs = append(descs, fmt.Sprintf("cfs=direct(%v)", en))
+			steps = append(steps, func(p *plugin) { p.rule.UpdateCFSQuotaEnabled(en) })
+		case k <= 2:
+			// --- the way koordlet does it: from the merged NodeSLO. CFS quota of batch pods is switched off iff the
+			// BE CPU suppress strategy is enabled with policy "cfsQuota".
+			spec := &slov1alpha1.NodeSLOSpec{}
+			g.Enabled = true
+			d := "cfs=nodeSLO(no threshold strategy)"
+			if rapid.IntRange(0, 3).Draw(t, "hasStrategy") > 0 {
+				en := rapid.Bool().Draw(t, "suppressEnable")
+				pol := rapid.SampledFrom([]string{"cfsQuota", "cfsQuota", "cpuset", ""}).Draw(t, "suppressPolicy")
+				spec.ResourceUsedThresholdWithBE = &slov1alpha1.ResourceThresholdStrategy{Enable: &en, CPUSuppressPolicy: slov1alpha1.CPUSuppressPolicy(pol)}
+				g.Enabled = !(en && pol == "cfsQuota")
+				d = fmt.Sprintf("cfs=nodeSLO(suppress enable=%v policy=%q)", en, pol)
 			}
-		})
-	}
-	// --- CPU normalization ratio
-	switch rapid.IntRange(0, 5).Draw(t, "ratioMode") {
-	case 0:
-		g.Desc += " ratio=unset"
-	case 1, 2:
-		f := rapid.OneOf(rapid.SampledFrom([]float64{-1, 0.5, 1, 1.0001, 1.5, 3}), rapid.Float64Range(1, 10), rapid.Float64Range(1, 1.01)).Draw(t, "ratio")
-		g.Ratio = new(big.Rat).SetFloat64(f)
-		g.Desc += fmt.Sprintf(" ratio=direct(%v)", f)
-		steps = append(steps, func(p *plugin) { p.rule.UpdateCPUNormalizationRatio(f) })
-	default:
-		// the way koordlet does it: from the node annotation (koord-manager writes it with two decimals)
-		node := &corev1.Node{ObjectMeta: metav1.ObjectMeta{Name: "n"}}
-		switch rapid.IntRange(0, 9).Draw(t, "annoKind") {
-		case 0:
-			g.Desc += " ratio=node(no annotation)"
-			if rapid.Bool().Draw(t, "emptyAnnos") {
-				node.Annotations = map[string]string{}
-			}
-		case 1:
-			s := rapid.SampledFrom([]string{"abc", "", "0", "0.00", "-1", "-2.50"}).Draw(t, "badRatio")
-			node.Annotations = map[string]string{c14AnnoRatio: s}
-			g.Desc += fmt.Sprintf(" ratio=node(illegal %q)", s)
+			descs = append(descs, d)
+			steps = append(steps, func(p *plugin) {
+				if _, err := p.parseRuleForNodeSLO(spec); err != nil {
+					panic(fmt.Sprintf("parseRuleForNodeSLO: %v", err))
+				}
+			})
+		case k == 3:
+			// --- ratio set directly with an arbitrary float (what parseRuleForNodeMeta ends up calling)
+			f := rapid.OneOf(rapid.SampledFrom([]float64{-1, 0.5, 1, 1.0001, 1.5, 3}), rapid.Float64Range(1, 10), rapid.Float64Range(1, 1.01)).Draw(t, "ratio")
+			g.ratioUpdate(new(big.Rat).SetFloat64(f))
+			descs = append(descs, fmt.Sprintf("ratio=direct(%v)", f))
+			steps = append(steps, func(p *plugin) { p.rule.UpdateCPUNormalizationRatio(f) })
 		default:
-			digits := rapid.SampledFrom([]int{2, 2, 2, 0, 1, 4}).Draw(t, "ratioDigits")
-			den := int64(1)
-			for i := 0; i < digits; i++ {
-				den *= 10
+			// --- the way koordlet does it: from the node annotation (koord-manager writes it with two decimals)
+			node := &corev1.Node{ObjectMeta: metav1.ObjectMeta{Name: "n"}}
+			switch ak := rapid.IntRange(0, 9).Draw(t, "annoKind"); {
+			case ak <= 1:
+				// annotation missing: reported as -1 = "no ratio", which is a regular update of the stored value
+				if rapid.Bool().Draw(t, "emptyAnnos") {
+					node.Annotations = map[string]string{}
+				}
+				g.ratioUpdate(big.NewRat(-1, 1))
+				descs = append(descs, "ratio=node(no annotation)")
+			case ak == 2:
+				// illegal value: parse error, the stored ratio is kept
+				s := rapid.SampledFrom([]string{"abc", "", "0", "0.00", "-1", "-2.50"}).Draw(t, "badRatio")
+				node.Annotations = map[string]string{c14AnnoRatio: s}
+				for _, cand := range g.Cands {
+					if cand != nil {
+						g.IllegalKept++
+						break
+					}
+				}
+				descs = append(descs, fmt.Sprintf("ratio=node(illegal %q)", s))
+			default:
+				var tt int64 // ratio in ten-thousandths
+				if lastTT > 0 && rapid.Bool().Draw(t, "nearLast") {
+					tt = lastTT + rapid.SampledFrom([]int64{-200, -101, -100, -99, -50, -1, 1, 50, 99, 100, 101, 200}).Draw(t, "ratioDelta")
+				} else {
+					tt = rapid.OneOf(
+						rapid.Map(rapid.Int64Range(100, 500), func(h int64) int64 { return h * 100 }),
+						rapid.Map(rapid.Int64Range(1, 1000), func(h int64) int64 { return h * 100 }),
+						rapid.Int64Range(1, 100000),
+						rapid.SampledFrom([]int64{5000, 9900, 10000, 10001, 10100, 15000, 30000}),
+					).Draw(t, "ratioTT")
+				}
+				if tt < 1 {
+					tt = 1
+				}
+				var s string
+				switch {
+				case tt%10000 == 0 && rapid.Bool().Draw(t, "noDecimals"):
+					s = fmt.Sprint(tt / 10000)
+				case tt%100 == 0:
+					s = fmt.Sprintf("%d.%02d", tt/10000, tt%10000/100)
+				default:
+					s = fmt.Sprintf("%d.%04d", tt/10000, tt%10000)
+				}
+				lastTT = tt
+				node.Annotations = map[string]string{c14AnnoRatio: s}
+				g.ratioUpdate(big.NewRat(tt, 10000))
+				descs = append(descs, fmt.Sprintf("ratio=node(%q)", s))
 			}
-			num := rapid.OneOf(rapid.Int64Range(den, 5*den), rapid.Int64Range(1, 10*den), rapid.SampledFrom([]int64{den, den + 1, 3 * den / 2, 3 * den})).Draw(t, "ratioNum")
-			if num < 1 {
-				num = 1
-			}
-			s := fmt.Sprint(num / den)
-			if digits > 0 {
-				s = fmt.Sprintf("%d.%0*d", num/den, digits, num%den)
-			}
-			node.Annotations = map[string]string{c14AnnoRatio: s}
-			g.Ratio = big.NewRat(num, den)
-			g.Desc += fmt.Sprintf(" ratio=node(%q)", s)
+			steps = append(steps, func(p *plugin) { _, _ = p.parseRuleForNodeMeta(node) })
 		}
-		steps = append(steps, func(p *plugin) { _, _ = p.parseRuleForNodeMeta(node) })
 	}
-	if rapid.Bool().Draw(t, "ratioFirst") {
-		for i, j := 0, len(steps)-1; i < j; i, j = i+1, j-1 {
-			steps[i], steps[j] = steps[j], steps[i]
-		}
+	if n == 0 {
+		descs = append(descs, "never configured (cfs quota enabled, no ratio)")
 	}
+	var cs []string
+	for _, r := range g.Cands {
+		cs = append(cs, c14RatStr(r))
+	}
+	g.Desc = fmt.Sprintf("updates=[%s] => model: cfsEnabled=%v storedRatio=%s", strings.Join(descs, " ; "), g.Enabled, strings.Join(cs, "|"))
 	g.apply = func(p *plugin) {
 		for _, s := range steps {
 			s(p)
@@ -479,16 +592,27 @@ func c14QuotaOK(got, base int64, cfg *c14Cfg) (bool, string) {
 	if base == -1 {
 		return got == -1, "-1 (unlimited)"
 	}
-	if !cfg.scaling() {
-		return got == base, fmt.Sprint(base)
+	var wants []string
+	ok := false
+	for _, r := range cfg.Cands {
+		o, w := c14QuotaOKFor(got, base, r)
+		ok = ok || o
+		wants = append(wants, w)
 	}
-	x := new(big.Rat).Quo(new(big.Rat).SetInt64(base), cfg.Ratio)
+	return ok, strings.Join(wants, " or ")
+}
+
+func c14QuotaOKFor(got, base int64, ratio *big.Rat) (bool, string) {
+	if !c14Above1(ratio) {
+		return got == base, fmt.Sprintf("%d (stored ratio %s: no scaling)", base, c14RatStr(ratio))
+	}
+	x := new(big.Rat).Quo(new(big.Rat).SetInt64(base), ratio)
 	delta := new(big.Rat).SetFrac(big.NewInt(1), new(big.Int).Lsh(big.NewInt(1), 50))
 	lo := new(big.Rat).Mul(x, new(big.Rat).Sub(big.NewRat(1, 1), delta))
 	hi := new(big.Rat).Mul(x, new(big.Rat).Add(big.NewRat(1, 1), delta))
 	hi.Add(hi, big.NewRat(1, 1))
 	g := new(big.Rat).SetInt64(got)
-	want := fmt.Sprintf("ceil(%d/%s)=ceil(%s)", base, cfg.Ratio.FloatString(6), x.FloatString(4))
+	want := fmt.Sprintf("ceil(%d/%s)=ceil(%s)", base, ratio.FloatString(6), x.FloatString(4))
 	if g.Cmp(lo) >= 0 && g.Cmp(hi) <= 0 {
 		return true, want
 	}
@@ -749,9 +873,18 @@ func TestVerifC14Hooks(t *testing.T) {
 		c.ClassIf(sharesMax, "shares-at-maximum")
 		c.ClassIf(sharesMin, "shares-at-minimum")
 		c.ClassIf(!cfg.Enabled, "cfs-quota-disabled")
-		c.ClassIf(cfg.scaling(), "ratio-above-1")
-		c.ClassIf(cfg.Enabled && cfg.Ratio != nil && !cfg.scaling(), "ratio-not-above-1")
-		c.ClassIf(cfg.Ratio == nil, "ratio-not-configured")
+		c.ClassIf(cfg.scalingAll(), "ratio-above-1")
+		c.ClassIf(cfg.Enabled && !cfg.scalingAny() && cfg.Cands[0] != nil, "ratio-not-above-1")
+		c.ClassIf(len(cfg.Cands) == 1 && cfg.Cands[0] == nil, "ratio-not-configured")
+		c.ClassIf(len(cfg.Cands) > 1, "stored-ratio-ambiguous(epsilon boundary, both accepted)")
+		c.Class(fmt.Sprintf("rule-updates:%d", cfg.Updates))
+		c.ClassIf(cfg.RemovedAfterSet > 0, "ratio-removed-after-set")
+		c.ClassIf(cfg.LoweredToLE1 > 0, "ratio-lowered-to-le-1")
+		c.ClassIf(cfg.SubEpsilon > 0, "sub-epsilon-update")
+		c.ClassIf(cfg.EpsilonBoundary > 0, "epsilon-boundary-update")
+		c.ClassIf(cfg.IllegalKept > 0, "illegal-annotation-keeps-stored-ratio")
+		c.ClassIf(cfg.RaisedAbove1 > 0, "ratio-raised-above-1")
+		c.ClassIf((cfg.RemovedAfterSet > 0 || cfg.LoweredToLE1 > 0) && cfg.Enabled && !cfg.scalingAny(), "ratio-removed-or-lowered-and-not-scaling-at-end")
 		c.ClassIf(aggregated, "reconciler-aggregated-entry")
 		treatedBE := pod.BE == 1 || (pod.BE == 0 && anyTouched)
 		c.ClassIf(pod.BE == 0 && anyTouched, "undecided-marking-treated-as-BE")
